@@ -152,6 +152,11 @@ func c17Sequential(r *zsim.Run) {
 		nops = 40 + o.Intn(80) // the thorough tier also draws longer histories
 	}
 	eager := o.Intn(3) == 0
+	if phase == 0 {
+		// on the tick the interesting orders are the ones in which an operation comes between the wheel firing a
+		// timer and the expiry callback running: most of these runs do not wait
+		eager = o.Intn(4) != 0
+	}
 	nextVal := 0
 	for i := 0; i < nops && !r.Failed(); i++ {
 		if !resolve() {
